@@ -136,7 +136,8 @@ static F64 j2d(U64 u) { F64 f; memcpy(&f, &u, 8); return f; }
 '''
 
 DRIVER_TAIL = r'''
-static U64 sets[64][256]; static int setN[64];
+#define MAXSETS 512
+static U64 sets[MAXSETS][256]; static int setN[MAXSETS];
 static void memHash(wasmMemory* m, int step) {
   U32 a = 0x811c9dc5u, b = 0x01000193u; U64 n = (U64)m->pages * 65536u, i;
   for (i = 0; i < n; i++) { U32 c = m->data[i]; a = (a ^ c) * 0x01000193u; b = (U32)((b + c) * 0x85ebca6bu) ^ (b >> 13); }
@@ -165,7 +166,7 @@ int main(int argc, char** argv) {
     char* tok[2048]; int nt = 0; char* p = strtok(line, " \n");
     while (p && nt < 2048) { tok[nt++] = p; p = strtok(NULL, " \n"); }
     if (nt == 0) continue;
-    if (tok[0][0] == 'S') { int s = atoi(tok[1]), i; setN[s] = atoi(tok[2]); for (i = 0; i < setN[s]; i++) sets[s][i] = strtoull(tok[3 + i], NULL, 0); continue; }
+    if (tok[0][0] == 'S') { int s = atoi(tok[1]), i; if (s < 0 || s >= MAXSETS || atoi(tok[2]) > 256) { fprintf(stderr, "driver: operand set out of range\n"); return 2; } setN[s] = atoi(tok[2]); for (i = 0; i < setN[s]; i++) sets[s][i] = strtoull(tok[3 + i], NULL, 0); continue; }
     step++;
     switch (tok[0][0]) {
     case 'I': { int k = atoi(tok[1]); cur = k; memset(&insts[k], 0, sizeof insts[k]);
